@@ -358,6 +358,8 @@ class RtrEngine(object):
         before = {xy: self.router_snapshot(m.chips[xy]) for xy in m.chips}
         inject = not heal and t.chance(0.1)
         self.inject_fail = inject
+        if inject:
+            w.fault("alloc_failure_injected")
         label = "load(%s, app=%d)" % (
             ", ".join("%r:%d" % (xy, len(es)) for xy, es in
                       sorted(tables.items())), app_id)
